@@ -106,6 +106,15 @@ func (s *Session) Lose() {
 	sgetty.GetGettyClientHandlerInstance().OnClose(s)
 }
 
+// LoseByError is the loss as getty reports a read error (reset by peer, a frame that cannot be decoded, the
+// heartbeat giving up): handlePackage calls the listener's OnError and then, for the same session, its OnClose.
+func (s *Session) LoseByError(err error) {
+	s.closed.Store(true)
+	h := sgetty.GetGettyClientHandlerInstance()
+	h.OnError(s, err)
+	h.OnClose(s)
+}
+
 // Deliver hands a message to the client's real dispatch, on the caller's goroutine (getty delivers
 // each package on a task-pool goroutine; callers use `go s.Deliver(..)` to get the same concurrency).
 func (s *Session) Deliver(m message.RpcMessage) {
